@@ -125,7 +125,7 @@ def _calib(case, R):
         if not (a_ <= val <= b_):
             R.violation("calibrated-value-outside-interval", f"{fam}: {par} = {val!r} outside [{a_}, {b_}]", wit)
         rep = price_with(val, strike, ptype)
-        if abs(rep - market) > 1e-6 * S:
+        if not (abs(rep - market) <= 1e-6 * S):
             R.violation("calibrated-model-does-not-reprice", f"{fam}: {par} = {val!r} reprices the target at {rep!r}, market {market!r}", wit)
         R.hit("input_untouched_checks")
         if not _same_snapshot(snap, _snapshot(model)):
@@ -172,13 +172,13 @@ def _calib(case, R):
     if not (lo <= val <= hi):
         R.violation("calibrated-value-outside-interval", f"{fam}: {par} = {val!r} outside [{lo}, {hi}]", wit)
     rep = price_with(val, S)
-    if abs(rep - market) > 1e-6 * S:
+    if not (abs(rep - market) <= 1e-6 * S):
         R.violation("calibrated-model-does-not-reprice", f"{fam}: {par} = {val!r}: ATM call {rep!r}, Black-Scholes target {market!r} (vol {bs_sigma!r})", wit)
     if new_model is not None:
         if type(new_model) is not type(model):
             R.violation("default-calibration-returns-another-type", f"{type(new_model).__name__} for a {type(model).__name__}", wit)
         got = float(np.asarray(COSPricer(new_model).call(np.array([S]), T)).reshape(-1)[0])
-        if abs(got - market) > 1e-6 * S:
+        if not (abs(got - market) <= 1e-6 * S):
             R.violation("default-calibration-model-does-not-reprice", f"{fam}: returned model prices the ATM call at {got!r}, target {market!r}", wit)
         if new_model.levy_model.parameters is model.levy_model.parameters:
             R.violation("default-calibration-aliases-the-input-parameters", f"{fam}: the returned model shares the parameter object of the input", wit)
